@@ -11,6 +11,7 @@ ENGINES = {
     'cache': ('harness.cache_checks', ['C01', 'C02', 'C05', 'C06', 'C07', 'C15', 'C16', 'C18', 'C20']),
     'store': ('harness.store_checks', ['C08']),
     'key': ('harness.key_checks', ['C09', 'C10', 'C11', 'C17']),
+    'valid': ('harness.valid_checks', ['C19']),
 }
 
 
